@@ -185,6 +185,59 @@ pub fn tracegen(opts: &Opts) -> i32 {
     let noflush = opts.u64("noflush", 0) == 1;
     let mut ecount = 0u64;
     let heal_at = opts.u64("heal_at", u64::MAX);
+    let recipe = opts.str("recipe", "");
+    if recipe == "f1" {
+        // Directed workload for finding F1: many superseded generations and many expired newest
+        // generations interleaved on the device, so that recovery's retirement list is longer than
+        // one journal chunk (1024 coalesced extents).
+        let st = store.as_ref().unwrap();
+        let put = |k: &[u8], v: &[u8], ts: Option<u64>, ttl: u64, expired: bool| {
+            let inv = tracer.next();
+            let r = if ttl > 0 { st.insert_with_ttl_and_timestamp(k, v, ttl, ts) } else { st.insert_with_timestamp(k, v, ts) };
+            let ret = tracer.next();
+            let t = st.verif_snapshot().iter().find(|x| x.key == k).map_or(ts.unwrap_or(0), |x| x.timestamp);
+            tracer.note(format!(
+                "{inv} OP put key={} vh={:016x} len={} ret={ret} res={} ts={t} expired={}",
+                hex(k),
+                fnv1a(v),
+                v.len(),
+                r.as_ref().map(|_| "ok".to_string()).unwrap_or_else(|e| err_name(e)),
+                expired as u8
+            ));
+        };
+        let flush = || {
+            let inv = tracer.next();
+            let r = st.flush();
+            let ret = tracer.next();
+            tracer.note(format!("{inv} FLUSH ret={ret} res={}", r.as_ref().map(|_| "ok".to_string()).unwrap_or_else(|e| err_name(e))));
+        };
+        let nfill = opts.u64("fillers", 1200);
+        let nx = opts.u64("xkeys", 600);
+        for i in 0..nfill {
+            put(format!("fill{i:05}").as_bytes(), &value_for(i, 60), None, 0, false);
+        }
+        for i in 0..nx {
+            put(format!("xkey{i:05}").as_bytes(), &value_for(10_000 + i, 80), Some(1000), 0, false);
+            put(format!("guard{i:05}").as_bytes(), &value_for(20_000 + i, 40), None, 0, false);
+        }
+        flush();
+        for i in (0..nfill).step_by(2) {
+            let k = format!("fill{i:05}").into_bytes();
+            let inv = tracer.next();
+            let r = st.delete(&k);
+            let ret = tracer.next();
+            tracer.note(format!("{inv} OP del key={} vh=0 len=0 ret={ret} res={} ts=0", hex(&k), r.as_ref().map(|_| "ok".to_string()).unwrap_or_else(|e| err_name(e))));
+        }
+        flush();
+        let seq = tracer.next();
+        tracer.note(format!("{seq} PHASE rewrite"));
+        // every X rewritten with a generation that is expired on arrival (expiry in 1970); best fit
+        // puts the new generations into the one-block holes below the old ones
+        for i in 0..nx {
+            put(format!("xkey{i:05}").as_bytes(), &value_for(30_000 + i, 70), Some(2000), 1, true);
+        }
+        flush();
+    } else {
     for i in 0..nops {
         if i == heal_at {
             // the device works again from here on
@@ -275,6 +328,7 @@ pub fn tracegen(opts: &Opts) -> i32 {
         } else {
             std::thread::sleep(std::time::Duration::from_millis(rng.below(140)));
         }
+    }
     }
     // C19: no flush and no close -- after `settle_ms` everything accepted before the wait must be
     // durable.  Recorded like an acknowledgement invoked before the wait and returned after it.
@@ -985,6 +1039,100 @@ pub fn run_lag(opts: &Opts) -> i32 {
     let dist = all.iter().map(|(k, v)| format!("\"{k}\": {v}")).collect::<Vec<_>>().join(", ");
     std::fs::write(format!("{dir}/stats.json"), format!("{{{dist}}}")).unwrap();
     println!("cases={total}");
+    0
+}
+
+/// engine `f1` (C04/C11): directed replay of finding F1 -- recovery's retirement list is longer than
+/// one journal chunk; the recovery is cut after every one of its own fsyncs and restarted.
+pub fn run_f1(opts: &Opts) -> i32 {
+    let dir = opts.str("out", "/verif/.build/cases/f1");
+    let seed = opts.u64("seed", 1);
+    let keep = format!("{dir}/images");
+    std::fs::create_dir_all(&keep).unwrap();
+    let mut out = Out::new(&dir, "s0");
+    let base = format!("{keep}/f1.feox");
+    let blocks = opts.u64("blocks", 4096);
+    let args = vec![
+        "-c".to_string(),
+        "0,1".to_string(),
+        crate::img::self_exe().to_string_lossy().to_string(),
+        "tracegen".into(),
+        format!("path={base}"),
+        format!("seed={seed}"),
+        format!("blocks={blocks}"),
+        "ttl=1".into(),
+        format!("sync={}", seed % 2),
+        "recipe=f1".into(),
+        format!("fillers={}", opts.u64("fillers", 1200)),
+        format!("xkeys={}", opts.u64("xkeys", 600)),
+        "close=0".into(),
+    ];
+    let g = std::process::Command::new("taskset").args(&args).output().ok().map(|o| String::from_utf8_lossy(&o.stdout).trim().to_string());
+    if g.as_deref().map_or(true, |s| !s.starts_with("tracegen-done")) {
+        out.emit3(&format!("note tracegen-failed {:?}", g), "note", "FAIL workload-child-failed-or-hung");
+        out.finish();
+        return 0;
+    }
+    let Some(t) = load_trace(&base) else {
+        out.emit3("note trace-unreadable", "note", "FAIL trace-unreadable");
+        out.finish();
+        return 0;
+    };
+    let phase: u64 = std::fs::read_to_string(format!("{base}.trace"))
+        .ok()
+        .and_then(|x| x.lines().find(|l| l.contains(" PHASE rewrite")).and_then(|l| l.split(' ').next().and_then(|v| v.parse().ok())))
+        .unwrap_or(0);
+    let states = key_states(&t);
+    let ack = acks(&t);
+    let syncs: Vec<u64> = t.evs.iter().filter_map(|e| if let Ev::F { seq, ok: true } = e { Some(*seq) } else { None }).filter(|s| *s > phase).collect();
+    let want = opts.u64("cuts", 6) as usize;
+    let mut cuts: Vec<u64> = (0..want.min(syncs.len())).map(|i| syncs[i * syncs.len() / want.min(syncs.len()).max(1)]).collect();
+    if let Some(l) = syncs.last() {
+        cuts.push(*l);
+    }
+    cuts.dedup();
+    let mut longest = 0usize;
+    for (pi, s1) in cuts.iter().enumerate() {
+        let img1 = build_image(&t, *s1, &[]);
+        let p1 = format!("{keep}/f1_{pi}.img");
+        std::fs::write(&p1, &img1).unwrap();
+        let work = format!("{p1}.rec");
+        std::fs::copy(&p1, &work).unwrap();
+        let r1 = run_child(&["probe".into(), format!("path={work}"), "ttl=1".into(), "allow=0".into(), "noworkload=1".into(), format!("rectrace={work}")], 120).unwrap_or_default();
+        let line1 = r1.splitn(3, ' ').nth(2).unwrap_or("").to_string();
+        let v1 = crash_verdict(&t, &states, &ack, *s1 + 1, &line1);
+        let (now1, rs1, _) = (0u64, 0u64, 0u64);
+        let _ = (now1, rs1);
+        let Some(c1) = contents_of(&line1) else {
+            out.emit3(&format!("note f1 first-level cut={s1}"), "note", &format!("FAIL first-level-image-does-not-reopen {}", line1.chars().take(60).collect::<String>()));
+            continue;
+        };
+        out.emit3(&format!("note f1 first-level cut={s1}"), "note", &v1);
+        let Some(mut rt) = load_trace(&work) else { continue };
+        rt.base = Some(img1.clone());
+        let rsyncs: Vec<u64> = rt.evs.iter().filter_map(|e| if let Ev::F { seq, ok: true } = e { Some(*seq) } else { None }).collect();
+        let markers = rt.evs.iter().filter(|e| matches!(e, Ev::W { .. })).count();
+        longest = longest.max(markers);
+        for (qi, s2) in rsyncs.iter().enumerate() {
+            let img2 = build_image(&rt, *s2, &[]);
+            let p2 = format!("{keep}/f1_{pi}_{qi}.img");
+            std::fs::write(&p2, &img2).unwrap();
+            let (now, recsize, line2) = probe_image(&p2, &format!("{p2}.probe"), true, false);
+            let verdict = match contents_of(&line2) {
+                None => format!("FAIL crash-inside-recovery-does-not-reopen: {}", line2.split(' ').take(2).collect::<Vec<_>>().join("_")),
+                Some(c2) if c2 == c1 => "ok".to_string(),
+                Some(_) => format!("FAIL contents-after-restarted-recovery-differ-from-first-recovery class=retirement-longer-than-one-journal-chunk recovery-writes={markers} cut-after-fsync={qi}"),
+            };
+            if verdict == "ok" {
+                // keep the disk small: only the images the model still has to read stay
+            }
+            out.emit3(&format!("open {p2} ro=0 allow=0 ttl=1 now={now} recsize={recsize} level=2 plan=fsync{s1} inner=fsync{qi}"), &line2, &verdict);
+        }
+        let _ = std::fs::remove_file(&p1);
+    }
+    std::fs::write(format!("{dir}/stats.json"), format!("{{\"largest_number_of_writes_in_one_recovery\": {longest}}}")).unwrap();
+    let n = out.finish();
+    println!("cases={n}");
     0
 }
 
